@@ -1,5 +1,5 @@
 import DyntplV.Impl
-import DyntplV.Refine.Term
+import DyntplV.Refine.TermIncl
 /-!
   Driver part for the interpreter model: parses tree dumps (hook `VerifDumpTree`), environments and
   render sessions from the token stream, runs `Impl`, prints canonical results.
@@ -196,7 +196,7 @@ def runSession (reg : Registry) (fuel : Nat) (ops : List SOp) : List String :=
     | .setCounter k n => (c.setCounter k n, outs)
     | .reset => (c.reset, outs)
     | .render key failAt =>
-      let r := writeKey reg (Term.fuelFor reg key fuel) key { c := c, w := { failAt := failAt } }
+      let r := writeKey reg (TermIncl.fuelFor reg key fuel) key { c := c, w := { failAt := failAt } }
       let status := match r.err with | none => "ok" | some e => "err:" ++ errName e
       (r.st.c, outs ++ [s!"{status} {hexStr r.st.w.out} {r.st.w.writes} {logStr r.st.c.log}"])
   (ops.foldl step (({} : Ctx), [])).2
